@@ -1,1 +1,216 @@
-fn main() {}
+//! Builds the inventory of public `dr::Builder` methods from the working tree
+//! of /repo (so a changed signature is followed automatically) and emits one
+//! call site per method whose parameter types are inside the known universe.
+
+use quote::ToTokens;
+use std::fmt::Write as _;
+use std::path::PathBuf;
+
+const MASKS: &[&str] = &[
+    "ImageOperands",
+    "FPFastMathMode",
+    "SelectionControl",
+    "LoopControl",
+    "FunctionControl",
+    "MemorySemantics",
+    "MemoryAccess",
+    "KernelProfilingInfo",
+    "RayFlags",
+    "FragmentShadingRate",
+    "RawAccessChainOperands",
+    "CooperativeMatrixOperands",
+    "CooperativeMatrixReduce",
+    "TensorAddressingOperands",
+    "MatrixMultiplyAccumulateOperands",
+];
+
+struct Method {
+    name: String,
+    file: String,
+    receiver: String,
+    params: Vec<(String, String)>,
+    ret: String,
+}
+
+fn norm(s: &str) -> String {
+    s.chars().filter(|c| !c.is_whitespace()).collect()
+}
+
+/// Returns the expression that takes one argument of type `ty` from the
+/// argument source `a`, or None if the type is outside the universe.
+fn take_expr(ty: &str) -> Option<String> {
+    let t = ty;
+    Some(match t {
+        "spirv::Word" => "a.take_word()".into(),
+        "Option<spirv::Word>" => "a.take_opt_word()".into(),
+        "u32" => "a.take_u32()".into(),
+        "u64" => "a.take_u64()".into(),
+        "u8" => "a.take_u8()".into(),
+        "InsertPoint" => "a.take_insert_point()".into(),
+        "implIntoIterator<Item=dr::Operand>" => "a.take_operands()".into(),
+        "implIntoIterator<Item=spirv::Word>" => "a.take_words()".into(),
+        "implIntoIterator<Item=u32>" => "a.take_u32s()".into(),
+        "implIntoIterator<Item=(spirv::Word,spirv::Word)>" => "a.take_pairs_ww()".into(),
+        "implIntoIterator<Item=(spirv::Word,u32)>" => "a.take_pairs_wu()".into(),
+        "implIntoIterator<Item=(dr::Operand,spirv::Word)>" => "a.take_pairs_ow()".into(),
+        "implInto<String>" => "a.take_string()".into(),
+        "Option<implInto<String>>" => "a.take_opt_string()".into(),
+        "implAsRef<[u32]>" => "a.take_u32s()".into(),
+        "implAsRef<[spirv::Word]>" => "a.take_words()".into(),
+        _ => {
+            if let Some(inner) = t.strip_prefix("Option<spirv::").and_then(|x| x.strip_suffix('>')) {
+                if !inner.chars().all(|c| c.is_alphanumeric()) {
+                    return None;
+                }
+                if MASKS.contains(&inner) {
+                    format!(
+                        "a.take_opt_enum(\"{0}\").map(|v| spirv::{0}::from_bits(v).expect(\"declared mask\"))",
+                        inner
+                    )
+                } else {
+                    format!(
+                        "a.take_opt_enum(\"{0}\").map(|v| spirv::{0}::from_u32(v).expect(\"declared enumerant\"))",
+                        inner
+                    )
+                }
+            } else if let Some(inner) = t.strip_prefix("spirv::") {
+                if !inner.chars().all(|c| c.is_alphanumeric()) {
+                    return None;
+                }
+                if MASKS.contains(&inner) {
+                    format!(
+                        "spirv::{0}::from_bits(a.take_enum(\"{0}\")).expect(\"declared mask\")",
+                        inner
+                    )
+                } else {
+                    format!(
+                        "spirv::{0}::from_u32(a.take_enum(\"{0}\")).expect(\"declared enumerant\")",
+                        inner
+                    )
+                }
+            } else {
+                return None;
+            }
+        }
+    })
+}
+
+fn ret_expr(ret: &str) -> Option<&'static str> {
+    Some(match ret {
+        "" | "()" => "{ let _ = r; Outcome::unit() }",
+        "spirv::Word" => "Outcome::id(r)",
+        "BuildResult<spirv::Word>" => "Outcome::res_id(r)",
+        "BuildResult<()>" => "Outcome::res_unit(r)",
+        _ => return None,
+    })
+}
+
+fn main() {
+    let repo = std::env::var("VERIF_REPO").unwrap_or_else(|_| "/repo".to_string());
+    let dir = PathBuf::from(&repo).join("rspirv/dr/build");
+    let files = [
+        "mod.rs",
+        "autogen_type.rs",
+        "autogen_constant.rs",
+        "autogen_annotation.rs",
+        "autogen_terminator.rs",
+        "autogen_debug.rs",
+        "autogen_norm_insts.rs",
+    ];
+    let mut methods: Vec<Method> = vec![];
+    for f in files {
+        let p = dir.join(f);
+        println!("cargo:rerun-if-changed={}", p.display());
+        let src = std::fs::read_to_string(&p).unwrap_or_else(|e| panic!("{}: {}", p.display(), e));
+        let ast = syn::parse_file(&src).unwrap_or_else(|e| panic!("{}: {}", p.display(), e));
+        for item in ast.items {
+            let syn::Item::Impl(imp) = item else { continue };
+            if imp.trait_.is_some() {
+                continue;
+            }
+            if norm(&imp.self_ty.to_token_stream().to_string()) != "Builder" {
+                continue;
+            }
+            for it in imp.items {
+                let syn::ImplItem::Fn(func) = it else { continue };
+                if !matches!(func.vis, syn::Visibility::Public(_)) {
+                    continue;
+                }
+                let mut receiver = String::new();
+                let mut params = vec![];
+                for inp in &func.sig.inputs {
+                    match inp {
+                        syn::FnArg::Receiver(r) => {
+                            receiver = norm(&r.to_token_stream().to_string());
+                        }
+                        syn::FnArg::Typed(t) => {
+                            let n = norm(&t.pat.to_token_stream().to_string());
+                            let ty = norm(&t.ty.to_token_stream().to_string());
+                            params.push((n, ty));
+                        }
+                    }
+                }
+                let ret = match &func.sig.output {
+                    syn::ReturnType::Default => String::new(),
+                    syn::ReturnType::Type(_, t) => norm(&t.to_token_stream().to_string()),
+                };
+                methods.push(Method {
+                    name: func.sig.ident.to_string(),
+                    file: f.to_string(),
+                    receiver,
+                    params,
+                    ret,
+                });
+            }
+        }
+    }
+    let mut out = String::new();
+    out.push_str("// generated by build.rs from /repo/rspirv/dr/build/*.rs -- do not edit\n");
+    let mut table = String::new();
+    for m in &methods {
+        let takes: Option<Vec<String>> = m.params.iter().map(|(_, t)| take_expr(t)).collect();
+        let re = ret_expr(&m.ret);
+        let callable = m.receiver == "&mutself" && takes.is_some() && re.is_some();
+        let params_lit: String = m
+            .params
+            .iter()
+            .map(|(n, t)| format!("(\"{}\", \"{}\")", n, t))
+            .collect::<Vec<_>>()
+            .join(", ");
+        if callable {
+            let takes = takes.unwrap();
+            writeln!(out, "#[allow(unused_variables, clippy::all)]").unwrap();
+            writeln!(
+                out,
+                "fn call_{}(b: &mut Builder, a: &mut Args) -> Outcome {{",
+                m.name
+            )
+            .unwrap();
+            for (i, t) in takes.iter().enumerate() {
+                writeln!(out, "    let p{} = {};", i, t).unwrap();
+            }
+            let args: Vec<String> = (0..takes.len()).map(|i| format!("p{}", i)).collect();
+            writeln!(out, "    let r = b.{}({});", m.name, args.join(", ")).unwrap();
+            writeln!(out, "    {}", re.unwrap()).unwrap();
+            writeln!(out, "}}").unwrap();
+            writeln!(
+                table,
+                "    MethodInfo {{ name: \"{}\", file: \"{}\", receiver: \"{}\", params: &[{}], ret: \"{}\", call: Some(call_{}) }},",
+                m.name, m.file, m.receiver, params_lit, m.ret, m.name
+            )
+            .unwrap();
+        } else {
+            writeln!(
+                table,
+                "    MethodInfo {{ name: \"{}\", file: \"{}\", receiver: \"{}\", params: &[{}], ret: \"{}\", call: None }},",
+                m.name, m.file, m.receiver, params_lit, m.ret
+            )
+            .unwrap();
+        }
+    }
+    writeln!(out, "pub static METHODS: &[MethodInfo] = &[\n{}];", table).unwrap();
+    let dest = PathBuf::from(std::env::var("OUT_DIR").unwrap()).join("builder_calls.rs");
+    std::fs::write(&dest, out).unwrap();
+    println!("cargo:rerun-if-changed=build.rs");
+    println!("cargo:rerun-if-env-changed=VERIF_REPO");
+}
